@@ -74,14 +74,14 @@ def compositeKdbx (P : KeyPrims) (c : Creds) : Option Bytes :=
 inductive KdbComposite where
   | key (k : Bytes)
   | noCredentials
-  | panicNot32           -- `key_elements[0].try_into().unwrap()` on a lone element that is not 32 bytes
+  | errNot32             -- `key_elements[0].try_into()` fails on a lone element that is not 32 bytes: `IncorrectKey` (was an unwrap panic, A36, repaired)
   deriving DecidableEq, Repr
 
 /-- KDB: a lone element is used unhashed (and must be 32 bytes), otherwise as above -/
 def compositeKdb (P : KeyPrims) (c : Creds) : KdbComposite :=
   match keyElements P c with
   | none => .noCredentials
-  | some [e] => if e.length = 32 then .key e else .panicNot32
+  | some [e] => if e.length = 32 then .key e else .errNot32
   | some es => .key (P.sha256 es.flatten)
 
 end Kp.Key
